@@ -767,7 +767,13 @@ class Prover:
                             # `_0 = move _r` where _r is a call result
                             e = A.ex(rv["op"])
                             if e[0] == "call":
-                                self._ens_tail(A, fn, s, A.state_before_term(bi, upto=si), ens, RET, e, n)
+                                # the callee's Ok-postcondition holds of okval(_r) on every path (it only speaks of the Ok payload)
+                                tdef = None
+                                if not rv["op"]["place"]["proj"]:
+                                    sd = fn.single_def(rv["op"]["place"]["local"])
+                                    if sd and sd[1] == "term":
+                                        tdef = sd[2]
+                                self._ens_tail(A, fn, s, A.state_before_term(bi, upto=si), ens, RET, e, n, tdef)
                                 n += 1
                     else:
                         val = A.L.lin(A.R.rvalue(rv))
